@@ -22,8 +22,8 @@ first token replaced (`checklib/props/_links.py`):
   stream, the raw decoder model must accept it and report exactly those segments (`Link_fitformat_raw`).
 
 * `linkwire chk=<0|1> <hex>` (a `decw` line) — the wire model (A) against (D) in the common form `WEv` (definitions, per message header /
-  number / field bytes, per sequence header and CRCs, error class), on streams where every field description (A) records has a
-  valid base type (`n/a:fd-invalid` otherwise: there (A) is known to be wrong, notes/links.md D1).
+  number / field bytes, per sequence header and CRCs, error class), on streams where (D) does not end with `invalidBaseType`
+  (`Link_wire_eq_decprog_partial`; `n/a:basetype` otherwise: there (A) is known to be wrong, notes/links.md D1).
 
 Answer: `ok`, `n/a:<hypothesis not met>`, or `diff:<which>`.
 -/
@@ -109,9 +109,10 @@ def hLinkWire : Handler := modelOnly fun args =>
   | [some bs] =>
     let fuel := bs.length + 1
     let a := Fit.Wire.decodeStream (fun _ => true) chk fuel true bs
-    let same := wireObsA a == wireObsD (runExact (Fit.DecProg.decodeLoop chk fuel true []) bs)
-    if !fdValidA a.1 then (if same then "n/a:fd-invalid" else "n/a:fd-invalid,differ")
-    else if same then "ok"
+    let d := runExact (Fit.DecProg.decodeLoop chk fuel true []) bs
+    -- `Link_wire_eq_decprog_partial`: equal unless (D) ends with `invalidBaseType`
+    if d.status == some .invalidBaseType then (if wireObsA a == wireObsD d then "n/a:basetype" else "n/a:basetype,differ")
+    else if wireObsA a == wireObsD d then "ok"
     else "diff:wire"
   | _ => "bad-op"
 
